@@ -385,12 +385,80 @@ def _as_float(c):
     return onp.asarray(c, dtype=float) if isinstance(c, onp.ndarray) else onp.array(c)
 
 
-HARNESSES = {"access": access_factory, "construct": construct_factory, "flatten": flatten_factory}
+def cotangent_factory(quick, seed):
+    """make_vjp of container-valued functions applied to cotangent containers given by the CALLER (any key order, tuple or list
+    where the function returned that type): leaves must be matched by key / position, never by iteration order."""
+    L = lib()
+    ag, np, ab = L["ag"], L["np"], L["ab"]
+    FNS = {
+        "dict(b, a)": (lambda x: ab.dict(b=3.0 * x, a=np.sin(x)), lambda x, c: c["b"] * 3.0 + c["a"] * onp.cos(x)),
+        "dict literal": (lambda x: ab.dict({"z": x * x, "m": 2.0 * x, "a": x}), lambda x, c: c["z"] * 2 * x + c["m"] * 2.0 + c["a"]),
+        "tuple(dict, x)": (lambda x: ab.tuple((ab.dict(q=x * 2.0, p=x ** 3), x)), lambda x, c: c[0]["q"] * 2.0 + c[0]["p"] * 3 * x ** 2 + c[1]),
+        "list": (lambda x: ab.list([x, x * x, np.sin(x)]), lambda x, c: c[0] + c[1] * 2 * x + c[2] * onp.cos(x)),
+        "dict of tuples": (lambda x: ab.dict(u=ab.tuple((x, 2 * x)), v=x ** 2), lambda x, c: c["u"][0] + 2 * c["u"][1] + c["v"] * 2 * x),
+    }
+
+    def permutations_of(c):
+        if isinstance(c, dict):
+            keys = list(c)
+            outs = []
+            for perm in itertools.permutations(keys):
+                outs.append({k: c[k] for k in perm})
+            return outs[:6]
+        return [c]
+
+    def h(ch):
+        name = ch.choose("function", sorted(FNS))
+        xk = ch.choose("x_kind", ["float", "array"])
+        x = 0.8 if xk == "float" else onp.array([0.8, -0.3])
+        f, ref = FNS[name]
+        with warnings.catch_warnings():
+            warnings.simplefilter("ignore")
+            vjp, val = ag.make_vjp(f)(x)
+            from autograd.core import vspace
+            base = vspace(val).ones()
+            cnt = [0]
+
+            def fill(v):
+                if isinstance(v, dict):
+                    return {k: fill(x_) for k, x_ in v.items()}
+                if isinstance(v, (tuple, list)):
+                    return type(v)(fill(x_) for x_ in v)
+                cnt[0] += 1
+                return v * (0.5 + cnt[0])
+            cot = fill(base)
+            variants = []
+            if isinstance(cot, dict):
+                variants = permutations_of(cot)
+            elif isinstance(cot, tuple) and isinstance(cot[0], dict):
+                variants = [(p,) + cot[1:] for p in permutations_of(cot[0])]
+            else:
+                variants = [cot]
+            k = ch.choose("key_order", list(range(len(variants))))
+            c = variants[k]
+            try:
+                got = vjp(c)
+            except Exception as e:
+                got = "%s: %s" % (type(e).__name__, str(e)[:100])
+            want = ref(x, c)
+        return name, k, got, want
+
+    def judge(ch, out):
+        name, k, got, want = out
+        ok = not isinstance(got, str) and same(got, onp.asarray(want) if not isinstance(want, float) else want, 1e-12)
+        v = None if ok else violation(PROP, "cotangent", name, "rev", "raised" if isinstance(got, str) else "wrong-gradient", dict(function=name, key_order=k), ch.choices,
+                                      dict(function=name, key_order=k), repr(got)[:200], repr(want)[:200], "# make_vjp of a %s-valued function, cotangent keys permuted (order %d)" % (name, k))
+        return dict(v=v, nontrivial=k > 0, outcome=(name, k), counts={}, sample=dict(choices=list(ch.choices), function=name, key_order=k))
+
+    return h, judge
+
+
+HARNESSES = {"access": access_factory, "construct": construct_factory, "flatten": flatten_factory, "cotangent": cotangent_factory}
 
 
 def run(ctx):
     rep = Report("exploration")
-    run_harnesses(ctx, rep, __name__, ["access", "construct", "flatten"], depth=2)
+    run_harnesses(ctx, rep, __name__, ["access", "construct", "flatten", "cotangent"], depth=2)
     rep.add(rule="access: (container value, outer sequence style, outer dict style, inner styles); construct: (constructor form, leaf "
                  "kind, read style, argnum); flatten: (value, identity); non-trivial = at least two leaves", values=len(values(ctx.quick)))
     rep.assumptions = ["nesting depth <= %d; leaves: float, (2,) and (1,2) float arrays" % (2 if ctx.quick else 3),
